@@ -10,12 +10,16 @@ RULE = ("the raw streams of the medium after flush at every prefix of random his
         "whole column-major rows, offset-binary integers, live references, catalog completeness, refcount = number of "
         "referring cells over ALL tables, unused entries empty, no live empty entry, no text beyond the pool entries; "
         "non-trivial = the history frees at least one string; distinct = distinct command lists")
-ASSUMPTIONS = ["the database code page is UTF-8 or US-ASCII in this check (the code pages whose codec is inside the model)"]
+ASSUMPTIONS = ["the database code page is UTF-8 or one of four single-byte pages (1251, 1252, 1253, ISO 8859-2) in this check; the multi-byte pages are exercised by C01/C14 on the implementation only"]
 KINDS = {"wf", "panic", "raw"}
 
 
 def decode(cp, raw):
-    return raw.decode("utf-8", "replace") if cp in (0, 65001) else raw.decode("latin-1")
+    import psdec
+    return raw.decode("utf-8", "replace") if cp in (0, 65001) else raw.decode(psdec.PY_CODEC.get(cp, "latin-1"), "replace")
+
+
+SB_PAGES = {1252: "\u00e9\u00ff\u20ac\u00bf", 1251: "\u0436\u042f\u0451", 28592: "\u0142\u017e", 1253: "\u03bb\u03a9"}
 
 
 def gen_cases(rng, tier, info):
@@ -23,6 +27,15 @@ def gen_cases(rng, tier, info):
     n = 80 if tier == "quick" else 2000
     for j in range(n):
         h = G.History(rng, rng.choice([0, 1, 2]), observe=None)
+        sb = None
+        if j % 4 == 3:
+            # a single-byte database code page with text from its repertoire: lengths and offsets in the pool are those
+            # of the ENCODED text
+            sb = sorted(SB_PAGES)[(j // 4) % len(SB_PAGES)]
+            rep = SB_PAGES[sb]
+            G.REP = lambda ch, rep=rep: ch if ord(ch) < 128 else rep[ord(ch) % len(rep)]
+            h.cmds.append("(set_db_cp %d)" % sb)
+            h.db.db_cp = sb
         h.add_table("T", kind="intkey")
         h.add_table("Shared", [mk("K", ("str", 20), pk=True), mk("V", ("str", 0), null=True)])
         # strings shared with the catalog ("T", "K", "Name", "Y" ...) and between tables
@@ -43,7 +56,8 @@ def gen_cases(rng, tier, info):
             h.delete("Big", cond=("bin", "eq", ("col", "K"), ("lit", 1)))
             h.flush(); h.raw()
         h.reopen(); h.flush(); h.raw()
-        cases.append(Case("wf-%d" % j, h.cmds))
+        G.REP = None
+        cases.append(Case("wf-%d%s" % (j, "-cp%d" % sb if sb else ""), h.cmds))
     info.update({"histories": n})
     return cases
 
